@@ -1063,7 +1063,8 @@ impl_wrapper!(impl<T: TS> TS for std::cell::Cell<T>);
 impl_wrapper!(impl<T: TS> TS for std::cell::RefCell<T>);
 impl_wrapper!(impl<T: TS> TS for std::sync::Mutex<T>);
 impl_wrapper!(impl<T: TS> TS for std::sync::RwLock<T>);
-impl_wrapper!(impl<T: TS + ?Sized> TS for std::sync::Weak<T>);
+// serde serializes a `Weak<T>` like the `Option<Arc<T>>` obtained by upgrading it
+impl_shadow!(as Option<std::sync::Arc<T>>: impl<T: TS + ?Sized> TS for std::sync::Weak<T>);
 
 // serde serializes `PhantomData<T>` as a unit struct (`null`), whatever `T` is
 impl<T: ?Sized> TS for std::marker::PhantomData<T> {
